@@ -94,7 +94,8 @@ func extractionSchema(client bool) *Schema {
 		// the Go client emits a duplicate option function when a method header repeats a service header name
 		withOpt(upd, "sebuf.http.method_headers", M{"required_headers": []any{hdr("X-Request-ID", "string", "uuid", true)}})
 	} else {
-		withOpt(upd, "sebuf.http.method_headers", M{"required_headers": []any{hdr("X-Request-ID", "string", "uuid", true), hdr("X-API-Key", "integer", "", true)}})
+		// (the third header leaves its type unset: it is validated as a string, with its format)
+		withOpt(upd, "sebuf.http.method_headers", M{"required_headers": []any{hdr("X-Request-ID", "string", "uuid", true), hdr("X-API-Key", "integer", "", true), hdr("X-Trace", "", "date-time", true)}})
 	}
 	lst := withOpt(method("ListNotes", ".ext.v1.ListNotesRequest", ".ext.v1.Note"), "sebuf.http.config", M{"path": "/notes/list", "method": "HTTP_METHOD_POST"})
 	if !client {
